@@ -193,6 +193,42 @@ theorem C10_utf8_injective (a b : List Char) (h : utf8 a = utf8 b) : a = b := by
   rw [h, decodeUtf8_complete b] at h1
   exact (Option.some.inj h1).symm
 
+/-- An ACTIVE profile-dependent group (`{D(..)}` with `cfg!(debug_assertions)`, `{R(..)}` without)
+is the unnamed group: same bytes through any writer, same operation stream, same law. -/
+theorem C10_active_group_eq_group (p : Params) (cs : List Node) (w : W) :
+    encodeNode (.gated true p cs) w = encodeNode (.fmt p cs) w ∧
+    denote (.gated true p cs) = denote (.fmt p cs) ∧
+    specText (.gated true p cs) = specText (.fmt p cs) := by
+  refine ⟨?_, ?_, ?_⟩
+  · rw [encodeNode, encodeNode]
+  · rw [denote, denote]
+  · rw [specText, specText]
+
+/-- An INACTIVE profile-dependent group runs none of its children, yet it is still a
+`Chunk::Formatted`: at byte level, through ANY writer (so at every nesting position), it hands on
+exactly the pieces of `codeFmtOps p []` — its width spec applied to the empty text. -/
+theorem C10_inactive_group_refines (p : Params) (cs : List Node) (w : W) :
+    encodeNode (.gated false p cs) w = w.feed (fmtPieces p []) ∧
+    opsOf (fmtPieces p []) = codeFmtOps p [] ∧
+    denote (.gated false p cs) = codeFmtOps p [] := by
+  refine ⟨encodeNode_feed (.gated false p cs) w, opsOf_fmtPieces p [], ?_⟩
+  rw [denote]
+
+/-- … so the bytes of an inactive group are the statement's law on the empty text: with a minimum
+width m (and no smaller maximum) exactly m fill characters, whatever the children are. -/
+theorem C10_inactive_group_padded (p : Params) (cs : List Node) (orc : List Nat)
+    (h : p.ordered = true) :
+    bytesOf (encodeNodes [Node.gated false p cs] (W.sink orc [])).emitted = utf8 (specFmt p []) ∧
+    (∀ m, p.minW = some m → specFmt p [] = fills p.fill m) := by
+  refine ⟨?_, ?_⟩
+  · have ho : Node.orderedAll [Node.gated false p cs] = true := by
+      simp [Node.orderedAll, Node.ordered, h]
+    rw [C10_bytes_eq_spec _ orc ho]
+    simp [specTexts, specText]
+  · intro m hm
+    unfold specFmt
+    cases hM : p.maxW <;> cases hr : p.right <;> simp [hm, fills]
+
 /-! ### non-vacuity (TESTS on concrete inputs, by evaluation) -/
 
 /-- a 3-byte character sits exactly at the width boundary and is dropped whole; the sink accepts
@@ -214,6 +250,19 @@ example :
     specTexts [outer] = ['😀', '😀'] ∧
     bytesOf (encodeNodes [outer] (W.sink [2, 3, 1] [])).emitted =
       [0xF0, 0x9F, 0x98, 0x80, 0xF0, 0x9F, 0x98, 0x80] := by
+  decide
+
+/-- `[{R({l} {m}):<6}]` in a build with debug assertions (release group inactive): six blanks
+between the brackets; and the same pattern with `{D(..)}` pads the level and message to six -/
+example :
+    let body : List Node := [.leaf [.data ['I', 'N', 'F', 'O']], .leaf [.data [' ']], .leaf [.data ['x']]]
+    let spec : Params := { minW := some 6 }
+    let br (n : Node) : List Node := [.leaf [.data ['[']], n, .leaf [.data [']']]]
+    bytesOf (encodeNodes (br (Node.releaseGroup true spec body)) (W.sink [1, 2] [])).emitted =
+      utf8 ['[', ' ', ' ', ' ', ' ', ' ', ' ', ']'] ∧
+    bytesOf (encodeNodes (br (Node.debugGroup true spec body)) (W.sink [1, 2] [])).emitted =
+      utf8 ['[', 'I', 'N', 'F', 'O', ' ', 'x', ']'] ∧
+    Node.orderedAll (br (Node.releaseGroup true spec body)) = true := by
   decide
 
 end Log4rs.Pattern
